@@ -94,11 +94,12 @@ AdminCalls ==
 \* a message that replays component r of the genuine message (p, s) presented earlier; only the issue-number
 \* splice claims another counter than its source
 ReplayCall(p, r, c, s) ==
-    [Call("verify", p, r # "id", r \notin CertReplays, r # "kes", c, FALSE) EXCEPT !.rep = r, !.src = s]
-ReplayCalls ==
-    {ReplayCall(t[1], t[2], t[3], t[4]) :
-        t \in {t \in Pools \X Replays \X Counters \X Counters :
-                  t[4] \in known[t[1]] /\ ((t[2] = "cert:issue") <=> (t[3] # t[4]))}}
+    [op |-> "verify", pool |-> p, id |-> r # "id", cert |-> r \notin CertReplays, kes |-> r # "kes", ctr |-> c,
+     flag |-> FALSE, rep |-> r, src |-> s]
+ReplaysFrom(p, s) ==
+    {ReplayCall(p, r, s, s) : r \in Replays \ {"cert:issue"}}
+    \cup {ReplayCall(p, r, c, s) : r \in Replays \cap {"cert:issue"}, c \in Counters \ {s}}
+ReplayCalls == UNION {UNION {ReplaysFrom(p, s) : s \in known[p]} : p \in Pools}
 Calls == VerifyCalls \cup ReplayCalls \cup AdminCalls
 
 Genuine(c) == c.op = "verify" /\ c.id /\ c.cert /\ c.kes
@@ -220,11 +221,13 @@ KnownIsPresented ==
 
 \* along the history: every replay was preceded by the genuine message it copies from, and none but an
 \* (unchecked) KES replay was accepted
-ReplaySourced ==
-    \A j \in 1..Len(h) :
-        h[j].c.rep # "" =>
-            /\ (h[j].e.ok => h[j].c.rep = "kes")
-            /\ \E i \in 1..(j - 1) : Genuine(h[i].c) /\ h[i].c.pool = h[j].c.pool /\ h[i].c.ctr = h[j].c.src
+SourcedAt(j) ==
+    h[j].c.rep # "" =>
+        /\ (h[j].e.ok => h[j].c.rep = "kes")
+        /\ \E i \in 1..(j - 1) : Genuine(h[i].c) /\ h[i].c.pool = h[j].c.pool /\ h[i].c.ctr = h[j].c.src
+ReplaySourced == \A j \in 1..Len(h) : SourcedAt(j)
+\* the same, for the last call only (every prefix of a history is a state too)
+ReplaySourcedLast == Len(h) > 0 => SourcedAt(Len(h))
 
 \* a fully valid message of a registered pool whose counter is not below the cache is accepted
 Complete ==
